@@ -221,6 +221,8 @@ fn main() {
             "features".into(),
             util::J::s(if cfg!(feature = "builder") {
                 "default"
+            } else if cfg!(feature = "alloc") {
+                "alloc-only"
             } else {
                 "no-default-features"
             }),
